@@ -99,6 +99,21 @@ func snapshot(root string) map[string]string {
 	return m
 }
 
+func mtimes(root string) map[string]time.Time {
+	m := map[string]time.Time{}
+	filepath.WalkDir(root, func(p string, d os.DirEntry, err error) error {
+		if err != nil || d.IsDir() {
+			return nil
+		}
+		if fi, err := d.Info(); err == nil {
+			rel, _ := filepath.Rel(root, p)
+			m[rel] = fi.ModTime()
+		}
+		return nil
+	})
+	return m
+}
+
 func skipped(rel string) bool {
 	parts := strings.Split(filepath.Dir(rel), string(filepath.Separator))
 	for _, p := range parts {
@@ -134,6 +149,7 @@ type world struct {
 	faults []*plannedFault
 	burst  bool
 	maxPar int
+	mt0    map[string]time.Time
 }
 
 func (w *world) hook() *simos.HookT {
@@ -370,6 +386,7 @@ func simWorld(rc *kernel.RunCtx) {
 		}
 	}
 	before := snapshot(root)
+	w.mt0 = mtimes(root)
 	args := generatecmd.Arguments{Path: root, WorkerCount: workers, KeepOrphanedFiles: keep, Lazy: lazy, IncludeVersion: version}
 	desc := fmt.Sprintf("workers=%d keep=%v lazy=%v version=%v files=%d dirs=%v", workers, keep, lazy, version, len(rels), dirs)
 
@@ -515,6 +532,10 @@ func (w *world) judge(desc string, before, after map[string]string, expected map
 		}
 		if !have || got != c {
 			rc.Fail("C15/unrelated-file-touched", "%s (%s): %s (orphan=%v, skipped dir=%v) was %s", desc, which, rel, isOrphan, skipped(rel), map[bool]string{true: "changed", false: "removed"}[have])
+			return
+		}
+		if fi, err := os.Stat(filepath.Join(w.root, rel)); err == nil && !fi.ModTime().Equal(w.mt0[rel]) {
+			rc.Fail("C15/unrelated-file-rewritten", "%s (%s): %s (orphan=%v, skipped dir=%v) has the same content but was written again (modification time %v, was %v)", desc, which, rel, isOrphan, skipped(rel), fi.ModTime(), w.mt0[rel])
 			return
 		}
 	}
